@@ -309,6 +309,12 @@ def run(ctx: Ctx) -> None:
     ctx.rule("D17.9", "the similarity objective is 0 on the template")
     _zero_on_template(ctx)
     _clamps(ctx)
+    ctx.rule("D17.10", "hardness is a function of the instance: the seeds "
+             "of its runs come from the instance name on every path, the "
+             "memo is re-used only for the same name, and nothing else "
+             "computed from an evaluated instance is kept")
+    from sa.checks.c12 import _memo
+    _memo(ctx, "D17.10")
     ctx.assumptions += [
         "items are [width, height] lists; cut_dimension is 0 or 1",
         "Instance(...) validates what it is given (C03/C19 cover its "
